@@ -647,7 +647,16 @@ func (x *c17) sweep(a *agg, deadline time.Time, workers int, chunk uint64, maxRu
 // pb1 runs the bounded systematic search: small two-task cases, each under
 // every schedule with exactly one preemption (capped per case).
 func (x *c17) pb1(a *agg, nCases int, cap int) (cases, schedules int) {
-	base := uint64(1) << 42
+	return x.pb(a, "pb1", uint64(1)<<42, nCases, cap)
+}
+
+// pb2: the same small cases under schedules with two preemptions, both placed
+// at boosted decision points (lock, atomic, pool and callback boundaries).
+func (x *c17) pb2(a *agg, nCases int, cap int) (cases, schedules int) {
+	return x.pb(a, "pb2", uint64(1)<<42, nCases, cap)
+}
+
+func (x *c17) pb(a *agg, kind string, base uint64, nCases int, cap int) (cases, schedules int) {
 	var mu sync.Mutex
 	var wg sync.WaitGroup
 	sem := make(chan struct{}, 16)
@@ -658,12 +667,12 @@ func (x *c17) pb1(a *agg, nCases int, cap int) (cases, schedules int) {
 			defer wg.Done()
 			defer func() { <-sem }()
 			idx := base + uint64(i)
-			po := x.spawn(1, 600*time.Second, "-base", fmt.Sprint(x.e.seed), "-from", fmt.Sprint(idx), "-to", fmt.Sprint(idx+1), "-profile", "mixed", "-pb1", fmt.Sprint(cap))
+			po := x.spawn(1, 600*time.Second, "-base", fmt.Sprint(x.e.seed), "-from", fmt.Sprint(idx), "-to", fmt.Sprint(idx+1), "-profile", "mixed", "-"+kind, fmt.Sprint(cap))
 			mu.Lock()
 			defer mu.Unlock()
 			for k := range po.lines {
 				l := &po.lines[k]
-				if l.Ev == "pb1" || (l.Ev == "end" && l.PB > 0) {
+				if l.Ev == kind || (l.Ev == "end" && l.PB > 0) {
 					cases++
 					schedules += l.PB
 				}
@@ -1225,6 +1234,16 @@ func mainC17(e *env) {
 		trouble(e, "%s", a.troubleS)
 	}
 	fmt.Printf("  bounded systematic search: %d two-task cases, each under every single-preemption schedule (cap %d): %d schedules in %.1fs\n", pbC, pbCap, pbS, time.Since(t2).Seconds())
+	pb2Cases, pb2Cap := 16, 300
+	if e.tier == "thorough" {
+		pb2Cases, pb2Cap = 160, 8000
+	}
+	t3 := time.Now()
+	pb2C, pb2S := x.pb2(a, pb2Cases, pb2Cap)
+	if a.troubleS != "" {
+		trouble(e, "%s", a.troubleS)
+	}
+	fmt.Printf("  bounded systematic search: the same kind of cases under two-preemption schedules placed at lock/atomic/callback decision points (cap %d): %d cases, %d schedules in %.1fs\n", pb2Cap, pb2C, pb2S, time.Since(t3).Seconds())
 	fmt.Printf("  sweep: %d runs in %.1fs (%.0f runs/hour), %d ops, %d steps, %d preemptions, %d distinct lock interleavings (%d with a preemption inside a splat window), %d failures\n",
 		a.runs, sweepS, float64(a.runs)/sweepS*3600, a.ops, a.steps, a.preempt, len(a.inter), len(a.interWin), len(a.failures))
 
@@ -1348,6 +1367,8 @@ func mainC17(e *env) {
 		"distinct_preemption_shapes":    len(a.shapes),
 		"pb1_cases":                     pbC,
 		"pb1_single_preemption_schedules": pbS,
+		"pb2_cases":                     pb2C,
+		"pb2_two_preemption_schedules":  pb2S,
 		"determinism_pairs_identical":   pairs,
 		"determinism_gomaxprocs":        []int{1, 1, 1, 4, 16},
 		"replayed_schedules_identical":  rchk,
